@@ -13,9 +13,8 @@ open Drx Drx.Lscr
 /-! ### the inventory of writes inside generator code -/
 
 /-- the writes to the tree inside generate_lingo / generate_js / generate_*_code which the model accounts for
-    (`afterLingo`: use_hash, use_parenthesis; `afterLingoFunc`: global_vars) -/
+    (`afterLingo`: use_parenthesis; `afterLingoFunc`: global_vars) -/
 def accountedWrites : List (String × String × String × String × String) := [
-  ("ast.constant_val", "Symbol", "generate_lingo", "assign", "self.use_hash"),
   ("ast.function_op", "Statement", "generate_lingo", "assign", "cast(CallFunction, self.code).use_parenthesis"),
   ("codegen.lingo", "-", "generate_lingo_code", "assign", "f.global_vars")
 ]
@@ -85,11 +84,11 @@ example (t : Script) : runOps [.J, .L, .J, .L] t = [fresh .J t, fresh .L t, fres
 def exFunc : FuncDef :=
   { name := S "h"
     pos := 0
-    stmts := [.stmt 4 (.callFn (.s (S "put")) 4 (.loadList (S "load_list") 2 [.sym (.s (S "loop")) 0 true]) true false false)] }
+    stmts := [.stmt 4 (.callFn (.s (S "put")) 4 (.loadList (S "load_list") 2 [.sym (.s (S "loop")) 0 true]) true false false .none)] }
 def exScript : Script := { functions := [exFunc] }
 
 def parenFlags (s : Script) : List Bool := s.functions.flatMap fun f => f.stmts.map fun st =>
-  match st with | .stmt _ (.callFn _ _ _ up _ _) => up | _ => true
+  match st with | .stmt _ (.callFn _ _ _ up _ _ _) => up | _ => true
 
 example : parenFlags exScript = [true] ∧ parenFlags (afterLingoScript exScript) = [false] := by
   constructor
